@@ -19,7 +19,14 @@
 (* on the coordinates, again for the binder only: they may be absent or    *)
 (* STALE (a subsampled template keeps the attribute of the finer axis).    *)
 (* Req follows the template's ACTUAL coordinates t0 + i*ts, f0 + j*fs.     *)
-(* A case is [tpl, geoms, values, scalar, fill, dt].                       *)
+(* A case is [tpl, geoms, values, scalar, fill, dt].  Values and the fill  *)
+(* are NUMERALS (strings): "3", "-1", "0.1", "1/3", "4294967295"; dt is the *)
+(* requested dtype.  A cell holds a value "as represented in the requested *)
+(* dtype": Cast(numeral, dt), the canonical text of that number in that    *)
+(* dtype -- the decimal integer when it is integral, else the hexadecimal  *)
+(* form of the double that equals it exactly (so for float32 the ROUNDED   *)
+(* value is what the cell must hold, for float64 the double itself).  Req  *)
+(* only ever compares cell contents for equality.                          *)
 (* A cell is <<i, j>> with 0-based time bin i and frequency bin j.         *)
 (***************************************************************************)
 EXTENDS GeomModel, PlaneGeom, TLC
@@ -203,14 +210,24 @@ StatusTab(tp, g, at) ==
 (* ---- the call ---- *)
 NG(c) == Len(c.geoms)
 LenOK(c) == c.scalar \/ Len(c.values) = NG(c)
-Val(c, k) == IF c.scalar THEN c.values[1] ELSE c.values[k]
+\* numerals that are not integers representable in every dtype used with them: their representation per dtype
+CastTable ==
+    (<<"0.1", "float64">> :> "0x1.999999999999ap-4") @@ (<<"0.1", "float32">> :> "0x1.99999a0000000p-4") @@
+    (<<"0.7", "float64">> :> "0x1.6666666666666p-1") @@ (<<"0.7", "float32">> :> "0x1.6666660000000p-1") @@
+    (<<"0.3", "float64">> :> "0x1.3333333333333p-2") @@ (<<"0.3", "float32">> :> "0x1.3333340000000p-2") @@
+    (<<"1/3", "float64">> :> "0x1.5555555555555p-2") @@ (<<"1/3", "float32">> :> "0x1.5555560000000p-2")
+\* integers are themselves in every dtype that can hold them (the generators only pair an integer with such a dtype:
+\* |v| < 2^24 for float32, 16777217 and 2147483647 with int32/uint32/float64, 4294967295 with uint32/float64, 255 with uint8)
+Cast(v, dt) == IF <<v, dt>> \in DOMAIN CastTable THEN CastTable[<<v, dt>>] ELSE v
+FillOf(c) == Cast(c.fill, c.dt)
+Val(c, k) == Cast(IF c.scalar THEN c.values[1] ELSE c.values[k], c.dt)
 \* tab[k][cell]: status of the cell with respect to geometry k
 Tab(c, at) == TLCEval([k \in 1..NG(c) |-> StatusTab(c.tpl, c.geoms[k], at)])
 
 \* painter's order: values a cell may hold, walking the list from the last geometry to the first
 RECURSIVE AllowedFrom(_, _, _, _)
 AllowedFrom(c, tab, cell, k) ==
-    IF k = 0 THEN {c.fill}
+    IF k = 0 THEN {FillOf(c)}
     ELSE IF tab[k][cell] = "in" THEN {Val(c, k)}
     ELSE IF tab[k][cell] = "out" THEN AllowedFrom(c, tab, cell, k - 1)
     ELSE {Val(c, k)} \cup AllowedFrom(c, tab, cell, k - 1)
@@ -222,7 +239,7 @@ NotOutAt(c, tab, cell) == {k \in 1..NG(c) : tab[k][cell] # "out"}
 BoxIdxTab(c) == TLCEval([k \in 1..NG(c) |-> TLCEval([rr \in RRFor(c.tpl, c.geoms[k]) |-> BoxIdx(c.tpl, rr, BoxOf(c.geoms[k]))])])
 RECURSIVE PaintBoxes(_, _, _, _, _)
 PaintBoxes(c, ixs, rd, cell, k) ==
-    IF k = 0 THEN c.fill
+    IF k = 0 THEN FillOf(c)
     ELSE IF InIdx(ixs[k][rd[k]], cell) THEN Val(c, k)
     ELSE PaintBoxes(c, ixs, rd, cell, k - 1)
 
@@ -258,20 +275,20 @@ RunHolds(cl, c, r, at, tab) ==
       [] cl = "LaterOverwrites" -> ok => \A cell \in CellsOf(tp) :
                                       (InAt(c, tab, cell) # {} /\ Cardinality(NotOutAt(c, tab, cell)) >= 2) =>
                                           At(r, cell) \in {Val(c, m) : m \in {k \in NotOutAt(c, tab, cell) : k >= SetMax(InAt(c, tab, cell))}}
-      [] cl = "FillElsewhere"   -> ok => \A cell \in CellsOf(tp) : NotOutAt(c, tab, cell) = {} => At(r, cell) = c.fill
+      [] cl = "FillElsewhere"   -> ok => \A cell \in CellsOf(tp) : NotOutAt(c, tab, cell) = {} => At(r, cell) = FillOf(c)
 
 \* all_touched only ever adds cells: what geometry k marked in the plain run is marked by k or a later geometry.
 \* Stated separately for cells marked by areal geometries and by lines/points (lines = TRUE).
 ValueRank(c, v) == IF \E k \in 1..NG(c) : Val(c, k) = v THEN SetMax({k \in 1..NG(c) : Val(c, k) = v}) ELSE 0
 DistinctValues(c) == /\ \A j, k \in 1..NG(c) : j # k => Val(c, j) # Val(c, k)
-                     /\ \A k \in 1..NG(c) : Val(c, k) # c.fill
+                     /\ \A k \in 1..NG(c) : Val(c, k) # FillOf(c)
 Superset(c, rp, rt, lines) ==
     (LenOK(c) /\ WellShaped(c, rp) /\ WellShaped(c, rt)) =>
         \A cell \in CellsOf(c.tpl) :
             IF DistinctValues(c)
             THEN LET kp == ValueRank(c, At(rp, cell)) IN
                  (kp > 0 /\ (Areal(c.geoms[kp]) # lines)) => ValueRank(c, At(rt, cell)) >= kp
-            ELSE (At(rp, cell) # c.fill /\ ((\A k \in 1..NG(c) : Areal(c.geoms[k])) # lines)) => At(rt, cell) # c.fill
+            ELSE (At(rp, cell) # FillOf(c) /\ ((\A k \in 1..NG(c) : Areal(c.geoms[k])) # lines)) => At(rt, cell) # FillOf(c)
 
 \* the clauses an observation fails (status tables computed once)
 FailingClauses(o) ==
